@@ -25,6 +25,19 @@ type c14Case struct {
 	Open    string   `json:"open"`     // "" | index holding an open (unrotated) segment with old events
 	Metrics []string `json:"metrics"`  // ages of rotated metrics segments, in creation order
 	NowMs   int64    `json:"nowMs"`    // wall clock at case creation (ages are ±30..90 min around the horizon)
+	// a segment whose line in the metadata file is longer than 64 KiB (1-based position; 0 = none): a metrics segment
+	// that saw 400 tag keys of 200 characters, a log segment with 400 such columns (200 in each of its two events)
+	WideMetric int `json:"wideMetric,omitempty"`
+	WideLog    int `json:"wideLog,omitempty"`
+}
+
+// c14WideNames: n field names of 200 characters
+func c14WideNames(n int) []string {
+	out := make([]string, n)
+	for i := range out {
+		out[i] = fmt.Sprintf("w%04d_%s", i, strings.Repeat("x", 194))
+	}
+	return out
 }
 
 const c14RetentionHours = 1
@@ -62,7 +75,7 @@ func c14Build(w *kernel.Worker, c *c14Case, rep *kernel.Report) (*c14Model, erro
 		}
 		return id, fmt.Sprintf(`{"timestamp":%d,"id":"%s","v":%d}`, c.ts(age, ev), id, ev)
 	}
-	for _, s := range c.Segs {
+	for si, s := range c.Segs {
 		survive := s.Age != "old"
 		a1, a2 := s.Age, s.Age
 		if s.Age == "straddle" {
@@ -70,6 +83,19 @@ func c14Build(w *kernel.Worker, c *c14Case, rep *kernel.Report) (*c14Model, erro
 		}
 		_, e1 := add(s.Index, a1, survive)
 		_, e2 := add(s.Index, a2, survive)
+		if c.WideLog == si+1 {
+			// 200 columns in each of the two events (one event may not exceed 63 000 bytes)
+			var sb1, sb2 strings.Builder
+			for i, n := range c14WideNames(400) {
+				if i%2 == 0 {
+					sb1.WriteString(`,"` + n + `":1`)
+				} else {
+					sb2.WriteString(`,"` + n + `":1`)
+				}
+			}
+			e1 = e1[:len(e1)-1] + sb1.String() + "}"
+			e2 = e2[:len(e2)-1] + sb2.String() + "}"
+		}
 		if err := ingestStep(w, 0, "c14"+s.Index, []string{e1, e2}); err != nil {
 			return nil, err
 		}
@@ -87,6 +113,13 @@ func c14Build(w *kernel.Worker, c *c14Case, rep *kernel.Report) (*c14Model, erro
 		name := fmt.Sprintf(`c14m{k="s%d"}`, i)
 		tsSec := c.ts(age, 0) / 1000
 		js := fmt.Sprintf(`{"metric":"c14m","tags":{"k":"s%d"},"timestamp":%d,"value":%d}`, i, tsSec, i+1)
+		if c.WideMetric == i+1 {
+			var sb strings.Builder
+			for _, n := range c14WideNames(400) {
+				sb.WriteString(`,"` + n + `":"1"`)
+			}
+			js = fmt.Sprintf(`{"metric":"c14m","tags":{"k":"s%d"%s},"timestamp":%d,"value":%d}`, i, sb.String(), tsSec, i+1)
+		}
 		var r map[string]interface{}
 		if err := w.Call("mputl", map[string]interface{}{"json": js, "org": 0}, &r); err != nil {
 			return nil, err
@@ -448,6 +481,17 @@ func c14Cases(tier string) []c14Case {
 	// metrics only
 	for _, ms := range metricsSets[1:] {
 		out = append(out, c14Case{Metrics: ms})
+	}
+	// one segment whose metadata line exceeds 64 KiB, at either position, next to an expired and a surviving one
+	for _, ms := range metricsSets[3:] {
+		for wide := 1; wide <= 2; wide++ {
+			out = append(out, c14Case{Segs: []c14Seg{{"a", "old"}, {"b", "fresh"}}, Metrics: ms, WideMetric: wide})
+		}
+	}
+	for _, ages2 := range [][]string{{"old", "fresh"}, {"fresh", "old"}} {
+		for wide := 1; wide <= 2; wide++ {
+			out = append(out, c14Case{Segs: []c14Seg{{"a", ages2[0]}, {"b", ages2[1]}}, Metrics: []string{"old", "fresh"}, WideLog: wide})
+		}
 	}
 	return out
 }
